@@ -7,14 +7,11 @@ import UnytModel.C14Check
 namespace Unyt.C14
 
 /-- every listed name of chunk 1 (four slices of 64 rows) is read by the string route and by the
-    three attribute routes as the independent reference reads it (guard: word-prefixed °C) -/
+    three attribute routes as the independent reference reads it -/
 theorem names_slice_01_0 : namesSliceOk 1 0 = true := by decide +kernel
 theorem names_slice_01_1 : namesSliceOk 1 1 = true := by decide +kernel
 theorem names_slice_01_2 : namesSliceOk 1 2 = true := by decide +kernel
 theorem names_slice_01_3 : namesSliceOk 1 3 = true := by decide +kernel
-
-/-- every excluded name of chunk 1 really is unusable as a unit string -/
-theorem exclusions_chunk_01 : exclusionsChunkOk 1 = true := by decide +kernel
 
 /-- prefix spellings 3·1 … 3·1+2 (symbols, then word forms) are rejected on every
     non-prefixable spelling (three slices of 110 spelling rows) -/
